@@ -3,8 +3,9 @@
    Model: Model/KeyHist.v over Model/KeyStruct.v.  PARTIAL in one named sense: signatures are symbolic records and
    "verifies" is the recomputation of the digest term (subject + hashed fields) under the issuer's label; nothing is
    said about the signature primitive (that is checked on the real code by tools/harness/c15.py with Ed25519 keys).
-   Following the code, PGPUID.selfsig counts a certification revocation by the key as a self-signature: after
-   revoke(uid) the effective attributes are those of the revocation (DESIGN.md 5 C15). *)
+   PGPUID.selfsig is the newest self-CERTIFICATION (types 0x10-0x13 issued by the key; repair 812bc0f): after revoke(uid) or an
+   attestation the effective attributes of the identity and the key expiry are still those of the certification.  The rule before the
+   repair (newest signature of any type by the key) is kept as selfsig_old / effective_old / key_expiry_old and refuted below. *)
 From Coq Require Import ZArith List Bool Permutation.
 Import ListNotations.
 Require Import PV.Model.KeyStruct PV.Model.KeyHist PV.Proofs.KeyStruct_lemmas PV.Proofs.KeyStruct_lemmas2 PV.Proofs.KeyStruct_lemmas3
@@ -33,7 +34,7 @@ Theorem C15_inv_step : forall w o, inv_world w = true -> inv_world (apply w o) =
 Proof. exact inv_step_b. Qed.
 Print Assumptions C15_inv_step.
 
-(* every finite sequence over create / add_uid (text or image, any attribute list) / recertify / third-party certify / revoke uid /
+(* every finite sequence over create / add_uid (text or image, any attribute list) / recertify / third-party certify / revoke uid / attest /
    third-party direct-key certify / add_subkey / revoke subkey / revoke key / add revoker / del_uid / protect / unlock / lock / copy / export+import / publish the public
    twin, in any order, interleaved across any number of keys *)
 Theorem C15_inv_reachable : forall ops, inv_world (run ops) = true.
@@ -63,7 +64,7 @@ Definition h_ex : list op :=
   [OCreate 0; OCreate 1; OAddUid 0 true [1] P1 true 1; OAddUid 1 true [5] P1 false 1; OAddUid 0 false [4] P2 false 2;
    OAddUid 0 true [2] P2 true 2; ORecertify 0 true [1] P2 false 2; ORecertify 0 true [1] P1 true 2; OCertify 1 0 true [1] (Some false) 2;
    OCertify 1 0 true [1] (Some true) 3; OAddSubkey 0 10 true 2 3; OAddSubkey 0 11 false 12 3; ORevokeSubkey 0 10 4; OAddRevoker 0 1 4;
-   ORevokeUid 0 true [2] 4; OPublish 0; OCertify 1 2 true [1] None 5; OCertifyKey 1 0 (Some false) 5; OCertifyKey 1 2 (Some true) 5; ODelUid 0 [2]; OProtect 0; ORevokeKey 0 6; OUnlock 0; ORevokeKey 0 6;
+   ORevokeUid 0 true [2] 4; OAttest 0 true [1] 4; OPublish 0; OCertify 1 2 true [1] None 5; OCertifyKey 1 0 (Some false) 5; OCertifyKey 1 2 (Some true) 5; ODelUid 0 [2]; OProtect 0; ORevokeKey 0 6; OUnlock 0; ORevokeKey 0 6;
    OCopy 0; OLock 0; OReimport 0; OReimport 2; OCopy 2].
 Example C15_history_example :
   length (run h_ex) = 3%nat /\ inv_world (run h_ex) = true
@@ -72,19 +73,59 @@ Example C15_history_example :
 Proof. vm_compute. repeat split. Qed.
 
 (* ------------------------------------------------------------------ the effective self-signature *)
+(* PGPUID.selfsig: a certification (0x10-0x13) issued by the key, and no certification issued by the key is newer *)
 Theorem C15_effective_is_most_recent : forall K u s, sortedb sig_lt (u_sigs u) = true -> selfsig K u = Some s ->
-  In s (u_sigs u) /\ c_issuer (s_core s) = K
-  /\ forall s', In s' (u_sigs u) -> c_issuer (s_core s') = K -> c_created (s_core s') <= c_created (s_core s).
+  In s (u_sigs u) /\ c_issuer (s_core s) = K /\ is_cert_type (c_type (s_core s)) = true
+  /\ forall s', In s' (u_sigs u) -> c_issuer (s_core s') = K -> is_cert_type (c_type (s_core s')) = true ->
+       c_created (s_core s') <= c_created (s_core s).
 Proof. exact effective_is_most_recent. Qed.
 Print Assumptions C15_effective_is_most_recent.
 (* (sortedness of every signature list is part of the invariant of reachable worlds) *)
 
-(* with the stable insort the later-added of two same-second self-signatures is the effective one *)
+(* ... and None exactly when the key has issued no certification on the identity *)
+Theorem C15_effective_none_iff : forall K u, selfsig K u = None <->
+  forall s, In s (u_sigs u) -> c_issuer (s_core s) = K -> is_cert_type (c_type (s_core s)) = false.
+Proof. exact effective_none_iff. Qed.
+Print Assumptions C15_effective_none_iff.
+
+(* with the stable insort the later-added of two same-second self-certifications is the effective one *)
 Theorem C15_later_added_wins_ties : forall K u s, sortedb sig_lt (u_sigs u) = true -> c_issuer (s_core s) = K ->
+  is_cert_type (c_type (s_core s)) = true ->
   (forall s', In s' (u_sigs u) -> c_created (s_core s') <= c_created (s_core s)) ->
   selfsig K (uid_or_sig u s) = Some s.
 Proof. exact later_added_wins_ties. Qed.
 Print Assumptions C15_later_added_wins_ties.
+
+(* attaching anything that is not a certification by the key (a certification revocation, an attestation, a third-party signature)
+   leaves the effective self-signature - hence flags, preferences, primary mark, key expiry, identity order - as it was *)
+Theorem C15_noncert_keeps_effective : forall K u s,
+  (is_cert_type (c_type (s_core s)) = false \/ c_issuer (s_core s) <> K) ->
+  selfsig K (uid_or_sig u s) = selfsig K u.
+Proof. exact noncert_keeps_effective. Qed.
+Print Assumptions C15_noncert_keeps_effective.
+
+Theorem C15_revocation_keeps_effective : forall K u isuid c t typ, typ = T_CERT_REV \/ typ = T_ATTESTATION ->
+  selfsig K (uid_or_sig u (plain (sign K typ t None false no_info (OnUid K isuid c)))) = selfsig K u.
+Proof. exact revocation_keeps_effective. Qed.
+Print Assumptions C15_revocation_keeps_effective.
+
+(* the rule before repair 812bc0f (newest signature of ANY type by the key) is refuted on two three-step histories: an identity
+   certified with a key expiration and then revoked (resp. attested) - the old rule reads the revocation (the attestation): no flags,
+   no preferences, no primary mark, and the key no longer expires; the repaired rule still reads the certification *)
+Definition P3 : list Z := [12; 630720000; 8; -1; 7; -1; 1; -1].
+Definition h_revoked : list op := [OCreate 0; OAddUid 0 true [1] P3 true 1; ORevokeUid 0 true [1] 5].
+Definition h_attested : list op := [OCreate 0; OAddUid 0 true [1] P3 true 1; OAttest 0 true [1] 5].
+Theorem C15_selfsig_old_refuted :
+  (exists ob u, nth_error (run h_revoked) 0 = Some ob /\ p_uids (o_key ob) = [u] /\ inv_world (run h_revoked) = true
+     /\ effective (o_key ob) u = Some (T_POSITIVE, P3, true) /\ key_expiry (o_key ob) = 630720000
+     /\ effective_old (o_key ob) u = Some (T_CERT_REV, no_info, false) /\ key_expiry_old (o_key ob) = -1)
+  /\ (exists ob u, nth_error (run h_attested) 0 = Some ob /\ p_uids (o_key ob) = [u] /\ inv_world (run h_attested) = true
+     /\ effective (o_key ob) u = Some (T_POSITIVE, P3, true) /\ key_expiry (o_key ob) = 630720000
+     /\ effective_old (o_key ob) u = Some (T_ATTESTATION, no_info, false) /\ key_expiry_old (o_key ob) = -1).
+Proof.
+  split; (eexists; eexists; split; [vm_compute; reflexivity|]; split; [vm_compute; reflexivity|]; repeat split; vm_compute; reflexivity).
+Qed.
+Print Assumptions C15_selfsig_old_refuted.
 
 Definition dd : digest := {| d_subj := OnKey 0; d_type := 0; d_created := 0; d_exp := None; d_primary := false; d_info := []; d_issuer := 0 |}.
 Definition mk (issuer typ created : Z) (prim : bool) (id : Z) : sig :=
@@ -92,12 +133,12 @@ Definition mk (issuer typ created : Z) (prim : bool) (id : Z) : sig :=
                   c_signer := issuer; c_digest := dd |}; s_emb := [] |}.
 (* before the F9 repair the OLDER of two same-second self-signatures was "most recent" *)
 Theorem C15_later_added_wins_ties_prefix_refuted :
-  exists K u s, sortedb sig_lt (u_sigs u) = true /\ c_issuer (s_core s) = K
+  exists K u s, sortedb sig_lt (u_sigs u) = true /\ c_issuer (s_core s) = K /\ is_cert_type (c_type (s_core s)) = true
     /\ (forall s', In s' (u_sigs u) -> c_created (s_core s') <= c_created (s_core s))
     /\ selfsig K (uid_or_sig_prefix u s) <> Some s /\ selfsig K (uid_or_sig u s) = Some s.
 Proof.
   exists 1, {| u_isuid := true; u_content := [1]; u_sigs := [mk 1 19 100 false 1] |}, (mk 1 19 100 true 2).
-  split; [reflexivity|]. split; [reflexivity|]. split.
+  split; [reflexivity|]. split; [reflexivity|]. split; [reflexivity|]. split.
   - intros s' [E|[]]. subst s'. vm_compute. discriminate.
   - split; [vm_compute; discriminate | vm_compute; reflexivity].
 Qed.
@@ -169,10 +210,11 @@ Proof. exact twin_reflects_state. Qed.
 Print Assumptions C15_twin_reflects_state.
 
 (* ------------------------------------------------------------------ the user id order before repair d951222 *)
-(* three identities marked primary, the middle one revoked: the old SorteDeque.resort left it in the middle; a copy then exports
+(* three identities marked primary, the middle one re-certified WITHOUT the primary mark (until repair 812bc0f a revocation had
+   that effect too: it hid the certification): the old SorteDeque.resort left it in the middle; a copy then exports
    the user ids in another order.  With the code as it is now the same history keeps every invariant (C15_inv_reachable). *)
 Definition h_stale : list op :=
-  [OCreate 0; OAddUid 0 true [1] P1 true 1; OAddUid 0 true [2] P1 true 2; OAddUid 0 true [3] P1 true 3; ORevokeUid 0 true [2] 10].
+  [OCreate 0; OAddUid 0 true [1] P1 true 1; OAddUid 0 true [2] P1 true 2; OAddUid 0 true [3] P1 true 3; ORecertify 0 true [2] P1 false 10].
 Theorem C15_uid_order_prefix_refuted :
   exists ob, nth_error (fold_left apply_prefix h_stale []) 0 = Some ob
     /\ uids_sortedb (o_key ob) = false /\ export (copy (o_key ob)) <> export (o_key ob)
